@@ -82,11 +82,22 @@ OUT_NAMES = ["out.itp", "polymer.itp", "polymer", "PEO_v1.2", "single.top", "OUT
 READ_MODES = ["plain", "symlink", "relative", "relative-dir"]
 
 
+def derived(rng, tag):
+    """a random stream derived from the CURRENT state of `rng` without consuming from it (new generator dimensions draw
+    from such streams so that the older choices of a seed stay what they were)"""
+    import random as _random
+    state = rng.getstate()[1]
+    return _random.Random("%s|%r|%r" % (tag, state[:2], state[-1]))
+
+
 def io_variation(rng, spec):
     """where the output is requested and how the .top that includes it is reached"""
     spec["out_name"] = rng.choice(OUT_NAMES)
     spec["out_rel"] = rng.random() < 0.4
     spec["read_mode"] = rng.choice(READ_MODES)
+    # the file system of the output directory: that of the temporary directory, or another one (/dev/shm, home ...)
+    extra = derived(rng, "c11-io")
+    spec["out_fs"] = "other" if extra.random() < 0.3 else "same"
     return spec
 
 
@@ -181,8 +192,7 @@ def gen_block(rng, resname, letter, thorough):
     # small rings / permuted atoms: DISTINCT interactions on the same atom set with identical parameters and metas
     # (the three angles of a three-membered ring, the ring dihedrals of a four-membered ring, impropers around one
     # centre listed in different orders); drawn from a derived stream so that the other choices stay what they were
-    import random as _random
-    extra = _random.Random("c11-ring|%s|%r" % (resname, rng.getstate()[1][:4]))
+    extra = derived(rng, "c11-ring|" + resname)
     if natoms >= 3 and extra.random() < 0.35:
         a, b, c = extra.sample(names, 3)
         params = ["2", extra.choice(["60", "60.0", "120"]), extra.choice(NUMBERS)]
@@ -264,8 +274,7 @@ def gen_case(rng, index, thorough):
     nres = rng.choice([1, 2, 2, 3, 3, 4, 5, 6] if thorough else [1, 2, 2, 3, 3, 4])
     files = {}
     # choices added later draw from a derived stream so that the cases of a given seed stay what they were
-    import random as _random
-    extra = _random.Random("c11-extra|%d|%r" % (index, rng.getstate()[1][:4]))
+    extra = derived(rng, "c11-extra|%d" % index)
     if extra.random() < 0.3:
         # a force field that defines its own [ modification ] (end-group patches of a polymer force field, as
         # martini3/modifications.ff does for proteins); gen_params patches the default protein termini when no
@@ -475,7 +484,7 @@ def model_writable(mol):
 
 def case_key(spec):
     blob = json.dumps([spec.get("files"), spec.get("lib"), spec.get("seq"), spec.get("seq_json"), spec.get("name"),
-                       spec.get("out_name"), spec.get("out_rel"), spec.get("read_mode")],
+                       spec.get("out_name"), spec.get("out_rel"), spec.get("read_mode"), spec.get("out_fs")],
                       sort_keys=True)
     return hashlib.sha1(blob.encode()).hexdigest()[:16]
 
@@ -674,6 +683,7 @@ def judge(ctx, case, answers):
         ctx.tally(section=name)
     if spec.get("repeat"):
         ctx.tally(second_call_in_process=True)
+    ctx.tally(output_file_system=res.get("out_fs"))
     ctx.tally(out_name=spec.get("out_name") or "out.itp", out_path=("relative" if spec.get("out_rel") else "absolute"),
               top_reached=spec.get("read_mode") or "plain")
     if spec["kind"] == "generated":
@@ -738,6 +748,8 @@ def malformed_stream(ctx, texts):
     rng = ctx.rng
     count = ctx.budget(40, 1200)
     todo = []
+    # only files that hold something to mutate (an empty or comment-only file is the oracle's business, not this stream's)
+    texts = [(n, t) for n, t in texts if any(l.strip() and not l.lstrip().startswith(";") for l in t.split("\n"))]
     if not texts:
         return
     for _ in range(count):
@@ -786,7 +798,7 @@ def nested_include_stream(ctx, cases):
     import shutil
     import tempfile
     from polyply.src.topology import Topology
-    rng = _random.Random("c11-nested|%r" % (ctx.rng.getstate()[1][:4],))
+    rng = derived(ctx.rng, "c11-nested")
     usable = [c for c in cases if c["res"].get("written") and (c["res"].get("top") or {}).get("ok")
               and c["res"]["captured"].get("moltype")]
     by_name = {}
@@ -1022,8 +1034,7 @@ def run(ctx):
         specs += finding_cases()
     # process history: the same call a second time in this process (after all the others, some of which fail) — the
     # oracle is applied to the LATER result as well
-    import random as _random
-    again = _random.Random("c11-again|%r" % (ctx.rng.getstate()[1][:4],))
+    again = derived(ctx.rng, "c11-again")
     pool = [s for s in specs if s.get("kind") in ("generated", "library")]
     for spec in again.sample(pool, min(len(pool), ctx.budget(6, 60))):
         specs.append(dict(copy.deepcopy(spec), repeat=True))
